@@ -143,7 +143,7 @@ def run(ctx):
             ctx.mismatch("smetric", {"impl": vs, "model": m}, case)
 
     # fit(CSR) and fit(dense) build the same graph
-    fit_metrics = names if ctx.thorough else ["euclidean", "cosine", "correlation", "jaccard", "hellinger", "manhattan"]
+    fit_metrics = names if ctx.thorough else ["euclidean", "cosine", "correlation", "jaccard", "hellinger", "manhattan", "minkowski", "canberra"]
     for name in fit_metrics:
         n, d = 40, 12
         if mg.canon(name) in mg.BINARY or name in ("jaccard", "dice"):
